@@ -2,10 +2,10 @@ package main
 
 import (
 	"fmt"
-	"os"
+	"go/types"
 	"hash/crc32"
 	"math"
-	"go/types"
+	"os"
 	"strings"
 
 	"golang.org/x/tools/go/ssa"
@@ -56,6 +56,18 @@ func (e *Engine) intrinsic(st *State, fn *ssa.Function, args []Value, ci ssa.Val
 			}
 			e.finish(st, ci, &Slice{Obj: st.alloc(arr), Len: n, Cap: n}, fd)
 			return true
+		case "vIte":
+			e.finish(st, ci, Ite(args[0].(*Term), args[1].(*Term), args[2].(*Term)), fd)
+			return true
+		case "vAnd":
+			e.finish(st, ci, And(args[0].(*Term), args[1].(*Term)), fd)
+			return true
+		case "vOr":
+			e.finish(st, ci, Or(args[0].(*Term), args[1].(*Term)), fd)
+			return true
+		case "vImplies":
+			e.finish(st, ci, Or(Not(args[0].(*Term)), args[1].(*Term)), fd)
+			return true
 		case "vTier":
 			e.finish(st, ci, Const(64, uint64(e.tier)), fd)
 			return true
@@ -64,6 +76,9 @@ func (e *Engine) intrinsic(st *State, fn *ssa.Function, args []Value, ci ssa.Val
 			return true
 		case "vAssume":
 			c := args[0].(*Term)
+			if !e.flushAsserts(st) {
+				return true
+			}
 			if c.IsFalse() {
 				st.outcome = "assume-false"
 				return true
@@ -83,39 +98,46 @@ func (e *Engine) intrinsic(st *State, fn *ssa.Function, args []Value, ci ssa.Val
 				}
 			}
 			if !c.IsTrue() {
-				if len(st.forced) == 0 {
-					if r := e.solver.Check(st.pc, c); r == "unsat" {
+				keep := false
+				if e.useModel && st.modelValid() {
+					if v, ok := st.holds(c); ok && v {
+						keep = true
+					}
+				}
+				if !keep && len(st.forced) == 0 {
+					if r := e.feasible(st, c); r == "unsat" {
 						st.outcome = "assume-false"
 						return true
 					} else if r == "unknown" {
 						panic(unsupported("solver unknown"))
 					}
+					if e.useModel {
+						st.model = e.fetchModel(st)
+						keep = true
+					}
 				}
 				st.pc = append(st.pc, c)
+				if keep {
+					st.modelN = len(st.pc)
+				}
 			}
 			e.finish(st, ci, nil, fd)
 			return true
 		case "vAssert":
+			// Assertions are collected and discharged in one query (the negated
+			// conjunction) before the next vAssume and at the end of the path:
+			// later branch conditions only split cases, so nothing is lost, and
+			// assumptions never act retroactively on an earlier assertion.
 			c := args[0].(*Term)
 			id := args[1].(string)
 			e.asserts[id]++
 			if !c.IsTrue() {
-				r := "sat"
-				e.assertQ++
-				if !c.IsFalse() {
-					r = e.solver.Check(st.pc, Not(c))
-				} else {
-					r = e.solver.Check(st.pc, nil)
+				st.pendA = append(st.pendA, pendAssert{c: c, id: id})
+				if c.IsFalse() || len(st.pendA) >= 64 {
+					if !e.flushAsserts(st) {
+						return true
+					}
 				}
-				if r == "unknown" {
-					panic(unsupported("solver unknown"))
-				}
-				if r == "sat" {
-					e.recordViolation(st, "assert", id)
-					st.outcome = "VIOLATION " + id
-					return true
-				}
-				st.pc = append(st.pc, c)
 			}
 			e.finish(st, ci, nil, fd)
 			return true
@@ -403,4 +425,86 @@ func (e *Engine) crcModel(st *State, bs []Value) *Term {
 	}
 	st.crcApps = append(st.crcApps, ts)
 	return h
+}
+
+type pendAssert struct {
+	c  *Term
+	id string
+}
+
+// flushAsserts discharges the collected assertions. It returns false when one
+// of them can be violated (the path then ends with a VIOLATION outcome).
+func (e *Engine) flushAsserts(st *State) bool {
+	if len(st.pendA) == 0 {
+		return true
+	}
+	pend := st.pendA
+	st.pendA = nil
+	if !e.noAbs && !e.assertsToSolver {
+		// quick tier: assertions the interval/difference-bound preprocessor proves
+		// from the path condition are not sent to the SMT solver (the thorough tier
+		// sends every assertion, and audits every preprocessor decision)
+		kept := pend[:0:0]
+		for _, p := range pend {
+			if !p.c.IsFalse() && st.implied(p.c) == triTrue {
+				e.absAsserts++
+				if e.audit {
+					if a := e.solver.Check(st.pc, Not(p.c)); a == "sat" {
+						panic("ABSINT UNSOUND on assertion " + p.id)
+					}
+				}
+				st.pc = append(st.pc, p.c)
+				continue
+			}
+			kept = append(kept, p)
+		}
+		pend = kept
+		if len(pend) == 0 {
+			return true
+		}
+	}
+	neg := Bool(false)
+	for _, p := range pend {
+		neg = Or(neg, Not(p.c))
+	}
+	e.assertQ++
+	var r string
+	if neg.IsTrue() {
+		r = e.solver.Check(st.pc, nil)
+	} else {
+		r = e.feasible(st, neg)
+		if r == "sat" && !e.noSlice {
+			// a counterexample needs values for every variable
+			r = e.solver.Check(st.pc, neg)
+		}
+	}
+	switch r {
+	case "unknown":
+		panic(unsupported("solver unknown"))
+	case "unsat":
+		valid := st.modelValid()
+		for _, p := range pend {
+			st.pc = append(st.pc, p.c)
+		}
+		if valid {
+			st.modelN = len(st.pc) // implied conjuncts: the model still fits
+		}
+		return true
+	}
+	// sat: find the first assertion that is false in the model
+	cs := make([]*Term, len(pend))
+	for i, p := range pend {
+		cs[i] = p.c
+	}
+	vals := e.solver.Values(cs)
+	id := pend[len(pend)-1].id
+	for i, p := range pend {
+		if p.c.IsFalse() || (!p.c.IsConst() && vals[i] == 0) {
+			id = p.id
+			break
+		}
+	}
+	e.recordViolation(st, "assert", id)
+	st.outcome = "VIOLATION " + id
+	return false
 }
